@@ -240,17 +240,42 @@ func exactFill(c *CaseCtx, class string) {
 					if !sameObs(after, before) {
 						c.Violate("reopen-diff:"+firstDiffCall(after, before), cls, fmt.Sprintf("exactly-full segment (%s): reads differ after reopen:\n%s", cfg, diffObs(after, before)))
 					}
-					// one more write rotates; reopen again
-					if err := db.Update(func(tx *nutsdb.Tx) error { return tx.Put("b", []byte("k0"), []byte("x"), 0) }); err != nil {
-						c.Violate("commit-error:"+errClass(err.Error()), cls, fmt.Sprintf("write after exact fill failed (%s): %v", cfg, err))
+					// more writes (small ones: no larger than the record that filled the segment), each followed by a
+					// reopen; every one of them must still be there at the end (a segment that is treated as having room
+					// left after the reopen takes records beyond its capacity, which a later recovery overwrites)
+					want := map[string]string{}
+					bad := false
+					for w := 0; w < 4 && !bad; w++ {
+						k, v := fmt.Sprintf("k%d", 3+w), fmt.Sprintf("w%d", w)
+						if err := db.Update(func(tx *nutsdb.Tx) error { return tx.Put("b", []byte(k), []byte(v), 0) }); err != nil {
+							c.Violate("commit-error:"+errClass(err.Error()), cls, fmt.Sprintf("write %d after exact fill failed (%s): %v", w, cfg, err))
+							bad = true
+							break
+						}
+						want[k] = v
+						db.Close()
+						db, err = openNoPanic(cfg.Options(dir))
+						if err != nil {
+							c.Violate("open-failed:"+errClass(err.Error()), cls, fmt.Sprintf("Open(%s) failed after write %d following an exactly-full segment: %v", cfg, w, err))
+							bad = true
+							break
+						}
+						db.View(func(tx *nutsdb.Tx) error {
+							for kk, vv := range want {
+								e, gerr := tx.Get("b", []byte(kk))
+								if gerr != nil || e == nil || string(e.Value) != vv {
+									c.Violate("reopen-diff:after-exact-fill:Get", cls, fmt.Sprintf("exactly-full segment (%s, last record empty value=%v): %q=%q was committed after the fill and is gone or changed after reopen %d (err=%v)", cfg, lastEmpty == 1, kk, vv, w, gerr))
+									bad = true
+								}
+							}
+							return nil
+						})
 					}
-					db.Close()
-					db, err = openNoPanic(cfg.Options(dir))
-					if err != nil {
-						c.Violate("open-failed:"+errClass(err.Error()), cls, fmt.Sprintf("Open(%s) failed after rotating away from an exactly-full segment: %v", cfg, err))
-						continue
+					if db != nil && !bad {
+						db.Close()
+					} else if db != nil {
+						func() { defer func() { recover() }(); db.Close() }()
 					}
-					db.Close()
 				}
 			}
 		}
